@@ -326,6 +326,12 @@ func (pnf *PageNumberFinder) findAndAddClosestValidLeafNodes(start *html.Node, c
 				break
 			}
 
+			// Text that is not rendered ("(current)" for screen readers, hidden
+			// with the hidden attribute or display:none) is not next to anything.
+			if node.Type == html.ElementNode && !domutil.IsProbablyVisible(node) {
+				break
+			}
+
 			checkStart = true // We want to check the child node.
 			if backward {
 				// Start the backward search with the rightmost child i.e. last and closest to
